@@ -92,6 +92,64 @@ def judge_path(path, root, cfg):
     return None
 
 
+# ------------------------------------------------------------------ FTP symlink entries
+PREFIX_SUB = 'p1/p2/p3/p4/p5/dl'
+LINK_NAMES = ['ok.lnk', '../up1', '../../../../up4', '../../../../../../../up7', '..', '.',
+              'sub/inner', 'f.txt/../../x', '@ABS@/abs_link', '/@ABS@', 'a\\b', 'x\x01y',
+              '.hidden', '..dots', 'dir/', ' -> f.txt', 'caf\u00e9']
+LINK_STYLES = ['unix', 'unix-nodest']
+
+
+def run_ftplink(name, style):
+    """Crawl an FTP directory (unmodified application, --retr-symlinks=off) whose listing has
+    a symbolic link entry called ``name``.  Afterwards every file-system entry that exists
+    under the scratch directory must lie inside the directory prefix (a sub-directory six
+    levels down, so that names climbing up to seven levels are observed inside the scratch
+    area or not at all), and the crawl must not have crashed."""
+    from vt.appharn import AppRun
+    from vt.explore import Chooser
+    from vt.ftpharn import FTPPeer
+    from vt import warcharn
+    from vt.checks import c09
+    wd = warcharn.new_workdir()
+    inner = os.path.join(wd, 'q1/q2')        # the process' working directory is wd
+    try:
+        nm = name.replace('@ABS@', os.path.join(wd, 'outside'))
+        os.makedirs(os.path.join(wd, 'outside'))
+        dest = '' if style == 'unix-nodest' else ' -> f.txt'
+        listing = ('-rw-r--r-- 1 u g 5 Jan 01 2020 f.txt\r\n'
+                   'lrwxrwxrwx 1 u g 5 Jan 01 2020 %s%s\r\n' % (nm, dest))
+        script = dict(c09.FTP_E2E_DEFAULTS)
+        script['listing'] = listing
+        site = {'hosts': {'f.test': {}}}
+        argv = ['ftp://f.test/dir/', '-r', '--retr-symlinks=off', '--waitretry', '0',
+                '--tries', '1', '--timeout', '5']
+        out = AppRun(site, argv, Chooser(), early=False, peer=FTPPeer(script), horizon=20000,
+                     workdir=wd, prefix_sub=PREFIX_SUB).run()
+        prefix = os.path.join(wd, PREFIX_SUB)
+        for base, dirs, files in os.walk(wd):
+            for n in dirs + files:
+                p = os.path.join(base, n)
+                if p == os.path.join(wd, 'outside'):
+                    continue
+                if (p + os.sep).startswith(prefix + os.sep) or prefix.startswith(p + os.sep):
+                    if p.startswith(prefix + os.sep):
+                        rel = p[len(prefix) + 1:]
+                        for comp in rel.split(os.sep):
+                            if comp in ('.', '..') or not comp:
+                                return 'component %r below the prefix: %s' % (comp, rel)
+                            if re.search(r'[\x00-\x1f\x7f]', comp):
+                                return 'control character in a name below the prefix: %r' % rel
+                    continue
+                return ('entry created outside the directory prefix: %s'
+                        % os.path.relpath(p, wd))
+        if out['result'] != 'ok':
+            return 'crawl does not terminate: %s' % out['result']
+        return None
+    finally:
+        warcharn.cleanup(wd)
+
+
 def jobs(tier, seed):
     cfgs = configs()
     js = []
@@ -105,6 +163,10 @@ def jobs(tier, seed):
     n = 8
     for i in range(0, len(subsets), n):
         js.append(dict(kind='cli', restrict=subsets[i:i + n], tier=tier))
+    # names that an FTP server puts into a directory listing: with --retr-symlinks=off a
+    # symbolic link entry is created locally under the server's name for it
+    for i in range(0, len(LINK_NAMES), 4):
+        js.append(dict(kind='ftplink', names=LINK_NAMES[i:i + 4], tier=tier))
     from vt import histfork
     js += histfork.hist_jobs(len(hist_alphabet({})), tier)
     if seed:
@@ -122,6 +184,21 @@ def run_job(job):
     root = '/dev/shm/verif-c15-root/dl'
     if job['kind'] == 'cli':
         run_cli(job, res, seen)
+        return res
+    if job['kind'] == 'ftplink':
+        for name in job['names']:
+            for style in LINK_STYLES:
+                res['evaluations'] += 1
+                v = run_ftplink(name, style)
+                res['outcomes']['violation' if v else 'ok'] = \
+                    res['outcomes'].get('violation' if v else 'ok', 0) + 1
+                if v:
+                    sig = 'C15:ftplink:%s' % v.split(':')[0][:60]
+                    if sig not in seen:
+                        seen.add(sig)
+                        res['violations'].append(dict(
+                            violation='%s [symlink entry %r, listing style %s]' % (v, name, style),
+                            signature=sig, kind='ftplink', name=name, style=style))
         return res
     if job['kind'] == 'hist':
         from vt import histfork
@@ -376,6 +453,9 @@ def replay(rec):
     if rec['kind'] == 'hist':
         from vt import histfork
         return histfork.replay_hist('vt.checks.c15', rec)
+    if rec['kind'] == 'ftplink':
+        v = run_ftplink(rec['name'], rec['style'])
+        return v, ('C15:ftplink:%s' % v.split(':')[0][:60]) if v else None, v
     if rec['kind'] == 'namer':
         from wpull.path import PathNamer
         from wpull.url import URLInfo
